@@ -62,6 +62,7 @@ package session
 //@     ensures[C10,C19] imp(err != nil, gStored(self) == old(gStored(self)) && gHas(self) == old(gHas(self)))
 //@   method Messages(storageID fix.StorageID, msgSeqNumFrom int, msgSeqNumTo int) (res []simplefixgo.SendingMessage, err error):
 //@     pure
+//@     shared[C20] res
 //@     forall j int
 //@     ensures[C10] imp(err == nil, msgSeqNumFrom <= msgSeqNumTo && len(res) == msgSeqNumTo - msgSeqNumFrom + 1)
 //@     ensures[C10] imp(err == nil && msgSeqNumFrom <= j && j <= msgSeqNumTo, sel(gHas(self), j) == 1 && nth(res, j - msgSeqNumFrom) == sel(gStored(self), j))
@@ -74,6 +75,7 @@ package session
 //@     ensures[C05,C06,C07,C14,C15,C16] imp(err != nil, sentN == old(sentN) && sentAt == old(sentAt) && sendFailed)
 //@   method SendBatch(messages []simplefixgo.SendingMessage) (err error):
 //@     modifies resentN, resentAt
+//@     shared[C20] messages
 //@     forall j int
 //@     ensures[C10,C07] imp(err == nil, resentN == old(resentN) + len(messages))
 //@     ensures[C10,C07] imp(err == nil && 0 <= j && j < len(messages), sel(resentAt, old(resentN) + j) == nth(messages, j))
@@ -105,7 +107,7 @@ package session
 //@ field[C20] Session.side: immutable_after(NewAcceptorSession, NewInitiatorSession)
 // Every function that moves the state machine or emits a message is covered by a proof
 // (has a contract, or is executed in line by a function that has one).
-//@ rule[C05,C06,C07,C08,C09,C10,C14,C15,C16] covered-callers: (*Session).changeState, (*Session).send, (*Session).sendWithErrorCheck, write Session.state, write Session.LogonSettings, Session.Router.Send, Session.Router.SendBatch
+//@ rule[C05,C06,C07,C08,C09,C10,C14,C15,C16] covered-callers: (*Session).changeState, (*Session).send, (*Session).sendWithErrorCheck, write Session.state, write Session.LogonSettings, Session.Router.Send, Session.Router.SendBatch, handlers Session.Router.HandleOutgoing, handlers Session.Router.HandleIncoming
 //@ callguard[C05] Session.counter.GetNextSeqNum: mu
 //@ callguard[C05] Session.Router.Send: mu
 //@ field Session.LogonHandler: callback(pure)
